@@ -484,5 +484,38 @@ func ruleC06QueryCut(c *Checker) {
 			c.check(head >= 1 && tail >= 1 && other == 0, R, p.FuncName(fn), "string cut at the index of \"?\"", p.Pos(cl.Pos()), "s[:idx] and s[idx:]", fmt.Sprintf("the string searched for \"?\" is sliced otherwise than into s[:idx] and s[idx:] (%d head, %d tail, %d other slice(s)): the question mark is duplicated, dropped, or the whole string repeated when the address is printed", head, tail, other))
 		}
 	}
+	// the strings.Cut form: before, after, found := strings.Cut(s, "?"); … "?" + after
+	for _, fn := range p.Funcs {
+		if fn.Package() == nil || fn.Package().Pkg.Path() != p.PkgPath("sourceaddrs") {
+			continue
+		}
+		res := fn.Signature.Results()
+		if res.Len() != 1 || !isStringType(res.At(0).Type()) {
+			continue
+		}
+		for _, ci := range callsTo(fn, func(o *types.Func) bool { return isFunc(o, "strings", "Cut") }) {
+			cl, ok := ci.(*ssa.Call)
+			if !ok {
+				continue
+			}
+			if k, isC := constString(cl.Call.Args[1]); !isC || k != "?" {
+				continue
+			}
+			after := extractOf2(cl, 1)
+			if after == nil {
+				continue
+			}
+			n++
+			readded := false
+			eachInstr(fn, func(in ssa.Instruction) {
+				if bo, ok := in.(*ssa.BinOp); ok && bo.Op == token.ADD && bo.Y == after {
+					if k, isC := constString(bo.X); isC && k == "?" {
+						readded = true
+					}
+				}
+			})
+			c.check(readded, R, p.FuncName(fn), "question mark put back after strings.Cut", p.Pos(cl.Pos()), "\"?\" + after", "strings.Cut removes the question mark, and what follows it is used without \"?\" in front: the query string is glued to the sub-path")
+		}
+	}
 	c.check(n > 0, R, "-", "printer that cuts at \"?\"", "-", fmt.Sprintf("%d site(s)", n), "no printer looks for the query string any more: a sub-path would be printed after the query")
 }
